@@ -22,4 +22,10 @@ CLAIMS["C09"] = {
     "note": NOTE,
 }
 
+CLAIMS["C11"] = {
+    "text": "Decides the syntactic side conditions the pass relies on: the complete 3x6 (sign, operator) decision table of _inequalities against the valid table (only != / not = prove difference, only positive < / > give an order - the two negated-strict rows were a genuine defect, fixed); _unequal answers only for exactly the recorded pair; a candidate group is accepted only if every pair at every differing position has a proof (path query with edge marks), over all pairs (combinations), with at least one inequality, non-overlapping; proofs are classified strict/ordered by operator; _crosscheck yields only when no variable at an unequal position is visible in the rest of the scope, and callers pass the complete scope (tuple terms + whole body; head / objective variables as globals); counting translation only for a single symmetry with exactly one unequal position, != -> < only if no order literal was used, new < literals over the sorted variables of exactly the removed literals; shape of the generated k <= #count aggregate and projected domain atom. Not decided: that the rest of the rule is symmetric in the copies for every program.",
+    "technique": "enum decision table + path-sensitive must-pass-through and edge-mark reachability queries over symmetry.py",
+    "note": NOTE,
+}
+
 NOT_APPLICABLE: dict[str, str] = {}
